@@ -344,7 +344,9 @@ Definition mp_nexthop (f : N) (nh : option (list N)) : list N :=
   if is_flowspec f then [0]
   else if is_vpn f && (len b =? 32) then 48 :: zeros 8 ++ firstn 16 b ++ zeros 8 ++ skipn 16 b
   else if is_vpn f then trunc8 (8 + trunc8 (len b)) :: zeros 8 ++ b
-  else if (len b <? 16) && ((len b =? 0) || (afi f =? 2)) && negb (nh_as_is f) then 16 :: b ++ zeros (16 - length b)
+  else if (len b <? 16) && ((len b =? 0) || (afi f =? 2)) && negb (nh_as_is f) then
+    if len b =? 4 then 16 :: zeros 10 ++ [255; 255] ++ b        (* IPv4-mapped IPv6 address *)
+    else 16 :: b ++ zeros (16 - length b)
   else trunc8 (len b) :: b.
 
 Definition mp_reach (p : profile) (c : codec) (cur : N) (f : N) (es : list pnlri) (nh : option (list N))
